@@ -423,10 +423,10 @@ func checkC12() fw.Check {
 		Gen: func(tier string, seed int64) []fw.Case {
 			var cases []fw.Case
 			r := rand.New(rand.NewSource(seed))
-			nCfg, every := 40, 16
-			fullKernel := 2
+			nCfg, every := 60, 8
+			fullKernel := 4
 			if tier == "thorough" {
-				nCfg, every, fullKernel = 300, 1, 300
+				nCfg, every, fullKernel = 500, 1, 500
 			}
 			for i, cfg := range tupleConfigs(r, nCfg) {
 				i, cfg := i, cfg
